@@ -169,6 +169,11 @@ def bounded(run, tier):
                   ('for (a; b%s) ;' % lt, None, 'no insertion in a for header'),
                   ('if (a)%selse b;' % lt, None, 'no insertion that yields an empty statement'),
                   ('while (a)%s' % lt, None, 'no insertion that yields an empty statement')]
+    # ES5 (unlike ES2015) has no special rule for do-while: its terminator is subject to the ordinary conditions
+    cases += [('do x; while (y) z', None, 'no insertion after do-while without a line terminator'),
+              ('if (a) do x; while (y) else z', None, 'no insertion after do-while without a line terminator'),
+              ('do x; while (y) /* c */ z;', None, 'no insertion after do-while without a line terminator'),
+              ('do { x } while (y) z', None, 'no insertion after do-while without a line terminator')]
     # no line terminator between the two tokens: a token that itself spans lines (string continuation), a single-line comment,
     # or mere white space does not license an insertion
     for sep in (' ', '\t', ' /* c */ ', '\xa0'):
@@ -246,6 +251,11 @@ def main(run, tier):
         run.function(f, scratch.sha256_file(scratch.module_path(f))[:16])
     grammar_obligations(run, g, shapes)
     from ..e1run import verify_functions
+    # Parser.p_error is where the parser asks for an automatic semicolon and where it gives up: its contract (contracts/slash.py) is
+    # part of "exactly where ES5 allows"
+    import contracts.slash as _slash
+    _pcs, _, _ = _slash.build(importlib.import_module('calmjs.parse.lexers.es5'), importlib.import_module('calmjs.parse.parsers.es5'))
+    verify_functions(run, [c_ for c_ in _pcs if c_.funcname == 'Parser.p_error'], {}, {}, tier=tier)
     import contracts.asi as ca
     cs, lemmas, env = ca.build(importlib.import_module('calmjs.parse.lexers.es5'))
     verify_functions(run, cs, dict((c.qualname, c) for c in cs if c.funcname.endswith('_create_semi_token')), {}, tier=tier)
